@@ -48,13 +48,18 @@ def check_rank_desc(ctx, rule: str):
     ctx.ob(rule, construct(fi, f"the {len(svs)} rankings sort on the evaluated measure(s) in decreasing order"), ok, loc(fi, svs[0] if svs else None),
            "" if ok else "ascending order ranks the least associated features first")
     # cut on the filtered table
-    sel = [n for n in walk_no_nested(fi.node) if isinstance(n, ast.Assign) and unparse(n.targets[0]) == "selected_features"]
+    sel_all = [n for n in walk_no_nested(fi.node) if isinstance(n, ast.Assign) and unparse(n.targets[0]) == "selected_features"]
+    # an empty default (`selected_features = []`) next to the comprehension is the same selection
+    sel = [n for n in sel_all if not (isinstance(n.value, ast.List) and not n.value.elts)]
     ok = False
     if len(sel) == 1 and isinstance(sel[0].value, ast.ListComp):
         lc = sel[0].value
+        sdefs = single_defs(fi.node)
         cj = [c for cond in lc.generators[0].ifs for c in conjuncts(cond)]
-        canon = [cmp_canon(c) for c in cj]
-        ok = ("feature", "in", "filtered_association.index[:n_best]") in canon and unparse(lc.generators[0].iter) == "initial_associations.index"
+        canon = [cmp_canon(inline(fi.node, c, defs=sdefs)) for c in cj]
+        v = unparse(lc.generators[0].target)
+        want = unparse(inline(fi.node, ast.parse("filtered_association.index[:n_best]", mode="eval").body, defs=sdefs))
+        ok = (v, "in", want) in canon and unparse(lc.generators[0].iter) == "initial_associations.index" and unparse(lc.elt) == v
     ctx.ob(rule, construct(fi, "per measure: the first n_best rows of the FILTERED ranking, listed in the initial ranking order"), ok, loc(fi, sel[0] if sel else None))
     fa = [n for n in walk_no_nested(fi.node) if isinstance(n, ast.Assign) and unparse(n.targets[0]) == "filtered_association"]
     ok = len(fa) == 1 and isinstance(fa[0].value, ast.Call) and call_name(fa[0].value) == "apply_filters" and unparse(fa[0].value.args[1]) == "associations"
@@ -399,8 +404,14 @@ def check_colsample_cover(ctx, rule: str):
                 ok = True
     defs = single_defs(fs.node)
     fsamp = [n for n in walk_no_nested(fs.node) if isinstance(n, ast.Assign) and unparse(n.targets[0]) == "feature_samples"]
-    first_ok = len(fsamp) == 1 and isinstance(fsamp[0].value, ast.ListComp) and "range(int(1 / self.colsample) - 1)" in unparse(fsamp[0].value) and "features[chunks * i:chunks * (i + 1)]" in unparse(fsamp[0].value)
-    last_ok = any("features[chunks * (int(1 / self.colsample) - 1):]" in unparse(a.value) for a in adds)
+    # hoisted sub-expressions (n_samples = int(1 / self.colsample)) are looked through, `chunks` is kept
+    idefs = {k: v for k, v in defs.items() if k not in ("chunks", "features", "feature_samples")}
+
+    def txt(e):
+        return unparse(inline(fs.node, e, defs=idefs))
+
+    first_ok = len(fsamp) == 1 and isinstance(fsamp[0].value, ast.ListComp) and "range(int(1 / self.colsample) - 1)" in txt(fsamp[0].value) and "features[chunks * i:chunks * (i + 1)]" in txt(fsamp[0].value)
+    last_ok = any("features[chunks * (int(1 / self.colsample) - 1):]" in txt(a.value) for a in adds)
     ctx.ob(rule, construct(fs, "colsample: the k-1 equal chunks plus one open-ended last chunk cover every feature exactly once"), ok and first_ok and last_ok, loc(fs),
            "" if (ok and first_ok and last_ok) else "features beyond the last full chunk are never measured: a feature can be left out for no valid reason")
     loops = [n for n in walk_no_nested(fs.node) if isinstance(n, ast.For) and unparse(n.iter) == "feature_samples"]
